@@ -6,7 +6,7 @@ import json, os, subprocess, sys
 HERE = os.path.dirname(os.path.dirname(os.path.abspath(__file__)))
 prop, fp, fid, what = sys.argv[1:5]
 why = sys.argv[5] if len(sys.argv) > 5 else ""
-payload = {"tier": "quick", "seed": 0, "budget": {}, "known": []}
+payload = {"tier": "quick", "seed": int(os.environ.get("SEED", "0")), "budget": {}, "known": []}
 env = dict(os.environ, PYTHONPATH="/repo:" + HERE, PYTHONHASHSEED="0")
 p = subprocess.run(["/venv/bin/python", os.path.join(HERE, "replay/run.py"), prop, "bounded"],
                    input=json.dumps(payload), capture_output=True, text=True, env=env, cwd=HERE)
